@@ -251,7 +251,7 @@ def run_case(case):
                 rwd = Batch.List([0.25 * (i + 1) for i in range(len(call))])
             else:
                 ctx, act, rwd = ctxs[0], acts[0], 0.25
-            rec = {"ctx": ctx, "actions": act, "np0": len(learner.predict_calls), "nl0": len(learner.learn_calls), "w": w, "b": bnow}
+            rec = {"ctx": ctx, "actions": act, "np0": len(learner.predict_calls), "nl0": len(learner.learn_calls), "w": w, "b": bnow, "rwd_try": rwd}
             recs.append(rec)
             try:
                 out = safe.predict(ctx, act)
@@ -946,7 +946,8 @@ def gen_case(rng, stress=0.3):
         case["score_kind"] = rng.choice(["absent", "base", ["raises", "AttributeError", "'Model' object has no attribute 'score'"],
                                          ["raises", "AttributeError", "'NoneType' object has no attribute 'score_table'"],
                                          ["raises", "KeyError", "score_cache"], ["raises", "TypeError", "unsupported operand type(s)"],
-                                         ["raises", "ValueError", "bad input"]])
+                                         ["raises", "ValueError", "bad input"], ["raises", "ValueError", "bad underscore in name"],
+                                         ["raises", "TypeError", "Scoreboard is missing"], ["raises", "KeyError", "scores"]])
     if kw:
         # the kwargs payload in several Mapping flavours (SafeLearner.has_kwargs tests abc.Mapping)
         case["kwmap"] = rng.wchoice([(5, "dict"), (1, "ordered"), (1, "default"), (1, "subclass"), (2, "proxy"), (2, "plain"), (2, "chain")])
@@ -1010,6 +1011,9 @@ def gen_mixed(rng):
             r["ctx"] = {"i": 100 + k}      # scalar contexts: `_method2` on an unbatched call then raises before calling the learner
             k += 1
     case["nobatch"] = "raise"
+    # learn / score keep their own call-style memo: batch-awareness per method, independent of predict's
+    case["learn_batch"] = rng.chance(0.5)
+    case["score_batch"] = rng.chance(0.5)
     return case
 
 
@@ -1290,7 +1294,7 @@ class C15(Property):
             return gen_ambiguous(rng)
         if rng.chance(0.12):
             return gen_rewrap(rng)
-        if rng.chance(0.04):
+        if rng.chance(0.07):
             return gen_mixed(rng)
         if rng.chance(0.06):
             return gen_drop(rng)
@@ -1479,6 +1483,8 @@ class C15(Property):
             req["score_batch"] = bool(case.get("score_batch", case["layout"] != "single"))
             if all("rwd" in rec for rec in recs):
                 req["rewards"] = [refs.enc(list(rec["rwd"]) if rec["b"] else rec["rwd"]) for rec in recs]
+            if all("rwd_try" in rec for rec in recs):
+                req["rewards_all"] = [refs.enc(list(rec["rwd_try"]) if rec["b"] else rec["rwd_try"]) for rec in recs]
             srecs = [rec for rec in recs if "score_arg" in rec]
             if srecs:
                 req["score_tup"] = case.get("wrap", "tuple") == "tuple"
@@ -1502,6 +1508,14 @@ class C15(Property):
         name = "%s/%s%s" % (("not" if not case.get("batch") else case["layout"]), case["fmt"], "+kw" if case.get("kw") else "")
         if d:
             fails.append(F("A", "%s: SafeLearner.predict differs from the model run on the learner's actual answers: %s" % (name, d), "A:result:" + name))
+        # (C) run = runSplit (first call decides, then runFrozen d) = runCore (decided wrapper reduced to State.core), on the very
+        # definitions run_eq_runSplit / run_eq_runCore are about, for the recorded and the scripted learner
+        for which in ("recorded_split", "scripted_split"):
+            sc = ans.get(which)
+            if sc is not None:
+                tags.append("split:%s/%s" % (which[:3], "mixed" if case.get("batches") else "uniform"))
+                if not (sc.get("split_ok") and sc.get("core_ok")):
+                    fails.append(F("C", "%s: run / runSplit / runCore differ on the %s learner's history (%s)" % (name, which.split("_")[0], json.dumps(sc)[:200]), "C:split"))
         # the calls made to the learner
         real_trace = []
         k = 0
@@ -1551,6 +1565,33 @@ class C15(Property):
             else:
                 fails.append(F("A", "%s: the model's runHistory raises %s, the real predict/learn sequence did not" % (name, h["err"]), "A:learn:" + name))
             tags.append("histOK:%s" % ("T" if ans.get("histOK") else "F"))
+        if "historyM" in ans and not already and case.get("nobatch", "raise") not in NOBATCH_RETURNS:
+            # predict / learn with both call-style memos threaded: also wrappers switched between batched and unbatched calls
+            hm = ans["historyM"]
+            canon = lambda calls: [dict(c, kw={"d": sorted(c["kw"]["d"], key=json.dumps)}) for c in calls]
+            tags.append("historyM:%s" % ("mixed" if case.get("batches") else "uniform"))
+            for i, rec in enumerate(recs):
+                if i >= len(hm):
+                    fails.append(F("A", "%s: the model's runHistoryM stops after %d interactions, the real run made %d" % (name, len(hm), len(recs)), "A:learnM:" + name))
+                    break
+                m = hm[i]
+                if "exc" in rec or "learn_exc" in rec or "nl1" not in rec:
+                    if "ok" in m and ("exc" in rec or "learn_exc" in rec):
+                        fails.append(F("A", "%s: interaction %d: the real %s raised %s, the model's runHistoryM delivers %s" % (
+                            name, i, "predict" if "exc" in rec else "learn", type(rec.get("exc", rec.get("learn_exc"))).__name__, json.dumps(m)[:160]), "A:learnM:" + name))
+                    elif "err" in m and "learn_exc" in rec:
+                        tags.append("historyM:learn-raises")
+                    break
+                if "err" in m:
+                    fails.append(F("A", "%s: interaction %d: the model's runHistoryM raises %s, the real predict/learn did not" % (name, i, m["err"]), "A:learnM:" + name))
+                    break
+                lcs = [l for l in learner.learn_calls[rec["nl0"]:rec["nl1"]] if l[0] != "rejected"]
+                real = canon([{"ctx": enc(list(l[1]) if l[0] else l[1]), "action": enc(l[2]), "reward": enc(list(l[3]) if l[0] else l[3]),
+                               "prob": enc(l[4]), "kw": enc(l[5])} for l in lcs])
+                if canon(m["ok"]) != real:
+                    fails.append(F("A", "%s: interaction %d: what learn was given differs from the model's runHistoryM: real %s, model %s" % (
+                        name, i, json.dumps(real)[:220], json.dumps(canon(m["ok"]))[:220]), "A:learnM:" + name))
+                    break
         if "scores" in ans:
             srecs = [rec for rec in recs if "score_arg" in rec]
             for k, (rec, m, w) in enumerate(zip(srecs, ans["scores"], ans["scores_want"])):
@@ -1756,7 +1797,9 @@ def corpus_cases():
     # phase 3: score kinds (has_score / score error paths), one wrapper switched between batched and unbatched calls, nan actions
     kinds = ["absent", "base", ["raises", "AttributeError", "'Model' object has no attribute 'score'"],
              ["raises", "AttributeError", "'NoneType' object has no attribute 'score_table'"], ["raises", "KeyError", "score_cache"],
-             ["raises", "TypeError", "unsupported operand type(s)"]]
+             ["raises", "TypeError", "unsupported operand type(s)"],
+             # has_score's probe is a substring test: "underscore" contains "score" (implemented score reported absent), "Scoreboard" does not
+             ["raises", "ValueError", "bad underscore in name"], ["raises", "TypeError", "Scoreboard is missing"], ["raises", "KeyError", "scores"]]
     for sk in kinds:
         for mode in ("not", "single", "row"):
             rows = [row(sets["str"], (i + 1) % 3, i) for i in range(1 if mode == "not" else 2)]
@@ -1769,6 +1812,9 @@ def corpus_cases():
                          for ci in range(3)]
                 cs.append({"seed": 1, "fmt": fmt, "kw": False, "layout": layout, "batch": True, "nobatch": "raise",
                            "batches": [(ci % 2 == 0) == first for ci in range(3)], "calls": calls})
+                for lb, sb in ((False, True), (True, False), (False, False)):
+                    cs.append({"seed": 1, "fmt": fmt, "kw": False, "layout": layout, "batch": True, "nobatch": "raise", "learn_batch": lb, "score_batch": sb,
+                               "batches": [(ci % 2 == 0) == first for ci in range(3)], "calls": calls})
     nan_acts = [{"nan": 0}, {"f": [5, 2]}, {"nan": 0}]
     for fmt in ("A", "AP", "PM"):
         for mode in ("not", "row"):
